@@ -1,10 +1,12 @@
 from checks.common import Build, Job
+from checks import cross
 
 PROP = "C03"
 BUILDS = [Build("cr_spec", "harness/c03_callrcu.c", flavor="spec"),
           Build("cr_memb", "harness/c03_callrcu.c", flavor="memb"),
           Build("cr_qsbr", "harness/c03_callrcu.c", flavor="qsbr"),
           Build("cr_bp", "harness/c03_callrcu.c", flavor="bp")]
+BUILDS = BUILDS + cross.gp_builds() + cross.fork_builds()   # cross-property core jobs (checks/cross.py)
 RULE = ("every schedule (preemption budget, x86-TSO delays, futex faults) of call_rcu scenarios - default, per-thread, per-CPU and "
         "RT helpers, concurrent enqueuers, re-enqueue from a callback, helper destroyed with callbacks pending - running the "
         "repo's urcu-call-rcu-impl.h over the specification flavor (synchronize_rcu returns as early as the specification "
@@ -44,6 +46,9 @@ def jobs(tier):
         J.append(Job(S, "per_cpu_free_race", "1,0,0,0,0", {"cpu": 1, "hold": 1}, {"VRT_NCPUS": 2}, workers=16))
     for cpu in (0, 1):
         J.append(Job(S, "per_cpu", "1,0,0,0,0" if q else "1,0,0,0,2", {"cpu": cpu, "migrate": cpu}, {"VRT_NCPUS": 2}, workers=8))
+    # per-CPU helpers whose affinity request fails with EINVAL (CPU not available to the process): tolerated, callbacks still run
+    for cpu in (0, 1):
+        J.append(Job(S, "per_cpu", "1,0,0,0,0", {"cpu": cpu, "migrate": cpu, "affinity_einval": 1, "affinity_period": 1}, {"VRT_NCPUS": 2}, workers=8))
     J.append(Job(S, "reenqueue", "2,0,0,0" if q else "3,0,0,0", workers=8))
     J.append(Job(S, "reenqueue", "1,1,0,0" if q else "2,1,0,0", workers=8))
     for b, env in (("cr_memb", {"VRT_MEMBARRIER": 2}), ("cr_qsbr", {}), ("cr_bp", {"VRT_MEMBARRIER": 0})):
@@ -60,6 +65,9 @@ def jobs(tier):
         J.append(Job(S, "per_thread", "3,0,0,0", workers=16))
         J.append(Job(S, "free_pending", "3,0,0,0", workers=16))
         J.append(Job(S, "free_pending", "2,1,0,0", workers=16))
+    # the components this property's guarantee is built on, on the real code (checks/cross.py)
+    J += cross.gp_core(tier)
+    J += cross.fork_core(tier)
     return J
 
 
